@@ -571,11 +571,12 @@ def _self_address_calls(fn):
     """calls in fn that hand the address of (a part of) *this to something else: an argument contains `this`, `&this->member` or
     `&this->accessor()`; returns {callee short name}"""
     out = set()
+    lv = common.single_assignment_locals(fn)      # an address held in a local (or a helper's parameter) on its way into the call
     for e, t in flow.call_events(fn):
         if t.get('k') != 'call' or t.get('short', '').startswith('operator') or t.get('short') in ('move', 'forward', 'addressof'):
             continue
         for a in t.get('args', []):
-            for st in subterms(a):
+            for st in subterms(common.expand_locals(a, lv)):
                 if not isinstance(st, dict):
                     continue
                 hit = False
